@@ -42,6 +42,20 @@ Theorem C19_accepted_implies :
 Proof. exact accepted_implies. Qed.
 Print Assumptions C19_accepted_implies.
 
+(** the payload check and the domain check are callbacks: whatever the application supplies, a
+    refusal — (false, nil) the way StaticDomain reports it, or an error — is never an accepted
+    proof (the boolean verdict decides, not only the error). *)
+Theorem C19_callback_refusal_rejects :
+  forall H verify b64 boc lib_ok ext_ok known exec cp cd lifetime now tp,
+    cp (p_payload tp) <> Ok true \/
+    (forall pm, convert b64 tp = Ok pm -> cd (m_domain pm) <> Ok true) ->
+    forall pk, check_proof H verify b64 boc lib_ok ext_ok known exec cp cd lifetime now tp <> Ok pk.
+Proof.
+  intros H verify b64 boc lib_ok ext_ok known exec cp cd lifetime now tp Href pk Hacc.
+  destruct (accepted_implies _ _ _ _ _ _ _ _ _ _ _ _ _ _ Hacc) as [src [Hcp [pm [acc [Hconv [_ [Hcd _]]]]]]].
+  destruct Href as [Hp | Hd]; [exact (Hp Hcp) | exact (Hd pm Hconv Hcd)].
+Qed.
+
 (** the same for the server as deployed (s.CheckPayload, StaticDomain): the payload was issued
     under the server's secret and has not expired, the domain is the configured one *)
 Theorem C19_server_accepted_implies :
